@@ -419,6 +419,21 @@ class A5History(RuleBasedStateMachine):
         call[k] = a
         self.h.step(call, is_repeat=True)
 
+    @rule(kind=st.integers(0, 11), k=st.integers(0, 63), c=cells, bit=st.booleans(), r=st.sampled_from([-3, -2, 30, 31, 32, 40]),
+          junk=st.sampled_from(["", " ", "xyz", "0x1f", "-1", "1" * 17, "g", "1e3"]))
+    def out_of_domain(self, kind, k, c, bit, r, junk):
+        """Arguments outside the documented domain (ids without a resolution marker, ids beyond 64 bits or negative,
+        resolutions outside -1..30, coordinates far outside the ranges, malformed hex). Whether such a call is rejected
+        or answered, it must do what a fresh process does, and it must leave nothing behind for the calls that follow
+        (checked by the ordinary rules that come after it in the history)."""
+        no_marker = (k << 58) | (1 if bit else 0)
+        wild = [no_marker, c | (1 << 64), -c, c | 1, (1 << 64) - 1, c ^ (1 << 63)][kind % 6]
+        call = [["cell_to_lonlat", wild], ["cell_to_boundary", wild], ["get_resolution", wild], ["cell_to_parent", wild, 0],
+                ["cell_to_children", wild, 1 + k % 3], ["u64_to_hex", wild], ["compact", ["l", c, wild]],
+                ["lonlat_to_cell", ["t", 12.5, 40.0], r], ["lonlat_to_cell", ["t", 1e6 * (k - 31), 91.0 + k], 5],
+                ["cell_to_parent", c, r], ["get_num_cells", r], ["hex_to_u64", junk]][kind]
+        self.h.step(call)
+
     @rule(i=st.integers(0, 10 ** 6))
     def repeat(self, i):
         if self.h.calls:
